@@ -86,6 +86,7 @@ def strategy(tier):
                 "seedmode": draw(st.sampled_from(["random", "random", "ones", "use_df"])),
                 "rng_seed": draw(st.integers(0, 2 ** 31 - 1)), "keep_zero": draw(st.sampled_from([True, True, False])),
                 "verbose": draw(st.sampled_from([True, False])), "plain_signals": draw(st.booleans()),
+                "prealloc": draw(st.sampled_from([False, False, True])),
                 "bare": draw(st.booleans())}
 
     @st.composite
@@ -257,9 +258,22 @@ def check_case(case):
     plain = case["seedmode"] == "use_df" and case["plain_signals"]
     mk = (lambda tag, state=None: pym.Signal(tag, state)) if plain else TapSignal
     sig = {}
+    prealloc = set()
     for n in B["sources"]:
         v = base[n]
         sig[n] = mk(n, v.copy() if isinstance(v, np.ndarray) else v)
+        if case.get("prealloc") and isinstance(v, np.ndarray) and v.ndim >= 1:
+            # a source signal constructed with a pre-allocated sensitivity buffer (Signal(tag, state, sensitivity=zeros)):
+            # keep_alloc is on, so reset() zeroes the buffer in place instead of dropping it
+            if not plain:
+                sig[n].recording = False
+            sig[n].sensitivity = np.zeros(v.shape, dtype=complex if B["cx"] else v.dtype)   # wide enough for the network
+            sig[n].keep_alloc = True
+            if not plain:
+                sig[n].recording = True
+            prealloc.add(n)
+    if prealloc:
+        labels.append("preallocated_sensitivity")
     mods = []
     for spec, ins, outs in ref.mods:
         for o in outs:
@@ -369,7 +383,8 @@ def check_case(case):
         elif _bits(st_now) != bits_before[n]:
             bad(f"restore:value_changed:{'array' if isinstance(x_before[n], np.ndarray) else 'scalar'}",
                 f"input {n}: before {x_before[n]!r}, after {st_now!r}")
-    left = [n for n, s in sig.items() if s.sensitivity is not None]
+    left = [n for n, s in sig.items() if s.sensitivity is not None
+            and not (n in prealloc and not np.any(s.sensitivity))]     # a kept allocation must be all zero
     if left:
         bad("sensitivity_left_set", f"signals with a sensitivity after the call: {left}")
 
